@@ -2,15 +2,22 @@ SPEC_PART = dict(
     props_file="C17_cpc",
     legs=[dict(family="cpc", focus="extremes", oracles=["prop_ok", "extremes_ok"], profiles=["debug", "release"],
                n_quick=None, n_thorough=None, panic_is_violation=True)],
-    trusted=["cpc: the modelled panic sites of cpc/sketch.rs, cpc/mod.rs, cpc/union.rs and determine_pseudo_phase are the "
-             "debug_assert!/assert!/expect/index/overflow sites I read in the sources; PairTable's own asserts (capacity: more than "
-             "24K surprising values) are outside the set model",
+    trusted=["cpc: the modelled panic sites of cpc/sketch.rs, cpc/mod.rs, cpc/union.rs, determine_pseudo_phase and the capacity "
+             "asserts of PairTable::rebuild are the debug_assert!/assert!/expect/index/overflow sites I read in the sources; "
+             "PairTable's probing asserts (slot layout) are outside the set model",
+             "cpc: serialize / deserialize / estimators / CpcWrapper have no Coq model of their own here (symbol-level coders: "
+             "C11_cpc; framing: C12_cpc; reader: C14_cpc): on this leg they are executed at the configuration extremes "
+             "(op big: lg_k 17..26 with a window, serialize + deserialize + estimate + bounds + wrapper + union) under "
+             "catch_unwind in both profiles, any panic is a violation",
              "cpc: the scripted large sketches (lg_k 17..26) are answered by the model in closed form (C = number of distinct pairs, "
              "flavor and offset as functions of C, justified by c05_cpc_refines), not by executing the list model"],
-    assumptions=["cpc: lg_k in 4..=26, pairs with row < K, 8C < 475K (offset <= 56), one seed per union"],
+    assumptions=["cpc: lg_k in 4..=26, pairs with row < K, 8C < 475K (offset <= 56), surprising values within the table capacity "
+                 "3/4 * 2^min(26, lg_k+5) (cpc_fits / usteps_fit / result_fits of C05 / C06; c17_cpc_table_capacity_needed shows the "
+                 "model Stuck and the crate panicking beyond it), one seed per union"],
     covers="cpc: update path, validate, build_bit_matrix (c17_cpc_update_no_stuck), union update / to_sketch (c17_cpc_union_no_stuck) "
            "never reach a modelled panic site; the u64 arithmetic of the repaired determine_flavor / determine_pseudo_phase equals the "
            "unbounded thresholds for every lg_k <= 26 and every u32 coupon count and never trips the overflow check "
-           "(c17_cpc_flavor_u64_exact, c17_cpc_pseudo_phase_u64_exact, c17_cpc_pseudo_phase_no_stuck); the pre-repair u32 arithmetic "
-           "is refuted with the replayed witnesses (c17_cpc_flavor_u32_refuted, c17_cpc_pseudo_phase_u32_refuted)",
+           "(c17_cpc_flavor_u64_exact, c17_cpc_pseudo_phase_u64_exact, c17_cpc_pseudo_phase_no_stuck, c17_cpc_sliding_phase_lt_16: the "
+           "serializer's table indices are in range); HISTORICAL, about the code before the repair: the u32 arithmetic is exact only on "
+           "part of the domain and refuted with the replayed witnesses (c17_cpc_*_u32_exact_partial, c17_cpc_*_u32_refuted)",
 )
